@@ -2,12 +2,18 @@
 use mech_core::*;
 use mech_syntax::*;
 use mech_interpreter::*;
+// `;;` separates pieces that are interpreted one after the other in the SAME interpreter session
 fn run(src: &str) -> String {
   let src = src.to_string();
   let r = std::panic::catch_unwind(move || {
     let mut a = Interpreter::new(0);
-    let tree = match parser::parse(&src) { Ok(t) => t, Err(e) => return format!("parse error {:?}", e) };
-    match a.interpret(&tree) { Ok(v) => format!("{}", v.pretty_print()), Err(e) => format!("error {:?}", e).chars().take(160).collect() }
+    let mut out = String::new();
+    for piece in src.split(";;") {
+      let tree = match parser::parse(piece.trim()) { Ok(t) => t, Err(e) => return format!("parse error {:?}", e) };
+      let s: String = match a.interpret(&tree) { Ok(v) => format!("{}", v.pretty_print()), Err(e) => format!("error {:?}", e).chars().take(160).collect() };
+      out.push_str(&s); out.push_str("\n");
+    }
+    out
   });
   match r { Ok(s) => s, Err(_) => "panicked".to_string() }
 }
